@@ -25,6 +25,7 @@ Definition model (c : case) : fs * result errno unit :=
   | OpReplaceTypes =>
       GenLayerSharedImp.gen_replace_layer_types (Ty:=unit) (Md:=unit) (fun _ : bytes => Some (None, tt)) (fun _ => Toml.TTbl [])
                                                (c_layers c) (c_name c) tt (c_pre c)
+  | OpKeep => (c_post c, Ok tt)       (* compared with keep_model in `agrees` *)
   | OpReplaceMetadata =>
       GenLayerSharedImp.gen_replace_layer_metadata (Ty:=unit) (Md:=unit) (fun _ : bytes => Some (None, tt)) (fun _ => Toml.TTbl [])
                                                   (c_layers c) (c_name c) tt (c_pre c)
@@ -49,7 +50,7 @@ Definition res_agrees (o : c11_res) (m : result errno unit) : bool :=
 Definition model_regenerated (c : case) : fs * result errno unit :=
   match c_op c with
   | OpDeleteLayer => GenLayerSharedImp.gen_delete_layer (c_layers c) (c_name c) (c_pre c)
-  | OpRdr | OpRecreate | OpReadLayer | OpWriteLayer | OpReplaceTypes | OpReplaceMetadata => model c
+  | OpRdr | OpRecreate | OpReadLayer | OpWriteLayer | OpReplaceTypes | OpReplaceMetadata | OpKeep => model c
   end.
 
 (* BuildContext::uncached_layer on an existing layer, as handle_layer composes it: read_layer; delete_layer when
@@ -60,6 +61,18 @@ Definition recreate_model (c : case) : fs * result errno unit :=
    (match r1 with Some _ => GenLayerSharedImp.gen_delete_layer (c_layers c) (c_name c) | None => ret tt end) ;;;
    GenLayerSharedImp.gen_write_layer (fun _ : unit => Toml.TTbl []) (c_layers c) (c_name c) tt ;;;
    _ <- GenLayerSharedImp.gen_read_layer parse (c_layers c) (c_name c) ;; ret tt) (c_pre c).
+
+(* BuildContext::cached_layer whose callbacks keep the layer, as handle_layer composes it: read_layer; when a layer
+   was read replace_layer_types, otherwise write_layer and read_layer again *)
+Definition keep_model (c : case) : fs * result errno unit :=
+  let parse := fun _ : bytes => Some tt in
+  (r1 <- GenLayerSharedImp.gen_read_layer parse (c_layers c) (c_name c) ;;
+   match r1 with
+   | Some _ => GenLayerSharedImp.gen_replace_layer_types (Ty:=unit) (Md:=unit) (fun _ : bytes => Some (None, tt)) (fun _ => Toml.TTbl [])
+                                                        (c_layers c) (c_name c) tt
+   | None => GenLayerSharedImp.gen_write_layer (fun _ : unit => Toml.TTbl []) (c_layers c) (c_name c) tt ;;;
+             _ <- GenLayerSharedImp.gen_read_layer parse (c_layers c) (c_name c) ;; ret tt
+   end) (c_pre c).
 
 (* a parse error (ROther) ends a call whose file-system part went through *)
 Definition res_agrees_read (o : c11_res) (m : result errno unit) : bool :=
@@ -74,6 +87,10 @@ Definition agrees (c : case) : bool :=
       (* the composed model, or a request that failed after its first read (unparsable metadata is the real
          parser's business: the model's parser accepts everything) *)
       (let '(s', r) := recreate_model c in res_agrees (c_res c) r && fs_eqb (doc_blank s' s') (doc_blank s' (c_post c))) ||
+      (match c_res c with ROk => false | _ => true end &&
+       fs_eqb (c_post c) (fst (GenLayerSharedImp.gen_read_layer (fun _ : bytes => Some tt) (c_layers c) (c_name c) (c_pre c))))
+  | OpKeep =>
+      (let '(s', r) := keep_model c in res_agrees (c_res c) r && fs_eqb (doc_blank s' s') (doc_blank s' (c_post c))) ||
       (match c_res c with ROk => false | _ => true end &&
        fs_eqb (c_post c) (fst (GenLayerSharedImp.gen_read_layer (fun _ : bytes => Some tt) (c_layers c) (c_name c) (c_pre c))))
   | _ => false
